@@ -186,8 +186,8 @@ func H_C08_sort2_crit() { sortHarness(2, sortValConc, true, true, false) }
 //verif:harness props=C08,C09,C02 tier=quick bounds="4 documents with fixed sort keys (2.5, nil, 2.5, absent), symbolic direction, symbolic skip and limit (any int), index none / on s / on x: window of the sorted sequence, unsorted window count, Count/Exists/FindFirst agree, ForEach stops after the consumer returns false at call k"
 func H_C08_window() { sortHarness(4, ref.Opts{}, false, false, true) }
 
-//verif:harness props=C08,C09,C02 tier=thorough bounds="3 documents, sort key s absent/nil/string<=1/symbolic float64, two sort options, criteria, symbolic skip/limit/direction, index none / on s / on x, windows and derived operations"
-func H_C08_sort3_sym() { sortHarness(3, sortValSym, true, true, true) }
+//verif:harness props=C08,C09,C02 tier=thorough bounds="3 documents, sort key s absent/nil/string<=1/symbolic float64 (0 or |x|>=2^-1000), symbolic direction, index none / on s (before or after the data) / on another field: ordered permutation"
+func H_C08_sort3_sym() { sortHarness(3, sortValSym, false, false, false) }
 
 //verif:harness props=C08 tier=quick bounds="Sort() without options orders by _id ascending; explicit sort on _id with symbolic direction (any int), alone or as the leading key, with/without an index on _id, FindFirst and a window: 3 documents inserted in any of 3 id orders"
 func H_C08_default_sort() {
